@@ -194,7 +194,9 @@ def length_rules(rep, ctx, mod, cg, prefix=""):
             for s_, sf in Fl0.sources(o):
                 val = const_val(s_) if is_const(s_) else None
                 lv = [k for k in (0, 1) if M0.find_fact(("eq", hdr_field("header_level", HP), k), set(sf) | set(sf0 or ()))[0] is not None]
-                for k in (lv or (0, 1)):         # a source not tied to one level can be the value at either
+                if not lv:                        # a source not tied to one level can be the value at either, unless its path excludes that level
+                    lv = [k for k in (0, 1) if M0.find_fact(("ne", hdr_field("header_level", HP), k), set(sf) | set(sf0 or ()))[0] is None]
+                for k in lv:
                     seen.setdefault(k, set()).add(val)
             # the value at a level is known only if every source that can reach it under that level is the same constant
             return {k: (next(iter(v)) if len(v) == 1 else None) for k, v in seen.items()}
